@@ -34,6 +34,10 @@ Section Prog.
               L_boks (fr_push true fr) G1 false false body -> L_sok fr G (FmtAst.SWhile c [] body [])).
     { intros fr G c body G1 _ _ _ _ IH lvl. rewrite sz_while. specialize (IH (S lvl)).
       pose proof (f_equal (@List.length token) (while_toks fx lvl c body [])) as E. repeat first [rewrite app_length in E | progress cbn [List.length] in E]. lia. }
+    assert (Hfor : forall fr G lv r body, L_boks (fr_push true fr) G false false body -> L_sok fr G (FmtAst.SFor lv r [] body [])).
+    { intros fr G lv r body IH lvl. rewrite sz_for. specialize (IH (S lvl)).
+      pose proof (f_equal (@List.length token) (for_toks fx lvl lv r body [])) as E.
+      repeat first [rewrite app_length in E | progress cbn [List.length] in E]. lia. }
     assert (Hif : forall fr G c body elifs G1 Gn Gm (els : option (str * list fstmt)),
               coks B F fr Gn elifs Gm -> L_boks (fr_push false fr) G1 false false body -> L_coks fr Gn elifs Gm ->
               match els with Some (ch, eb) => ch = [] /\ (forall L, szb false eb <= List.length (body_toks fx L false eb)) | None => True end ->
@@ -55,15 +59,15 @@ Section Prog.
       unfold body_toks in *. cbn [map stmts_loop]. rewrite Hb. rewrite !toks_app. rewrite !app_length. cbn [toks_of_pieces flat_map tok_of_piece app List.length]. lia. }
     split; [|split].
     - apply (sok_mind B F L_sok L_coks L_boks); intros; try (apply S1; [econstructor; eassumption | reflexivity]);
-        first [ eapply Hwhile; eassumption | eapply (Hif _ _ _ _ _ _ _ _ None); eauto
+        first [ eapply Hwhile; eassumption | eapply Hfor; eassumption | eapply (Hif _ _ _ _ _ _ _ _ None); eauto
               | eapply (Hif _ _ _ _ _ _ _ _ (Some ([], _))); eauto | intro; cbn; lia
               | eapply Hcons; eassumption | intro; cbn; lia | eapply Hbl; eassumption | eapply Hbc; eassumption ].
     - apply (coks_mind B F L_sok L_coks L_boks); intros; try (apply S1; [econstructor; eassumption | reflexivity]);
-        first [ eapply Hwhile; eassumption | eapply (Hif _ _ _ _ _ _ _ _ None); eauto
+        first [ eapply Hwhile; eassumption | eapply Hfor; eassumption | eapply (Hif _ _ _ _ _ _ _ _ None); eauto
               | eapply (Hif _ _ _ _ _ _ _ _ (Some ([], _))); eauto | intro; cbn; lia
               | eapply Hcons; eassumption | intro; cbn; lia | eapply Hbl; eassumption | eapply Hbc; eassumption ].
     - apply (boks_mind B F L_sok L_coks L_boks); intros; try (apply S1; [econstructor; eassumption | reflexivity]);
-        first [ eapply Hwhile; eassumption | eapply (Hif _ _ _ _ _ _ _ _ None); eauto
+        first [ eapply Hwhile; eassumption | eapply Hfor; eassumption | eapply (Hif _ _ _ _ _ _ _ _ None); eauto
               | eapply (Hif _ _ _ _ _ _ _ _ (Some ([], _))); eauto | intro; cbn; lia
               | eapply Hcons; eassumption | intro; cbn; lia | eapply Hbl; eassumption | eapply Hbc; eassumption ].
   Qed.
